@@ -1,11 +1,14 @@
 """C03 – block reads and range iteration: case generation."""
 import random
 from vf import Case
+from gen import constants
 from props.regcommon import checks, default_for
 
 ID = "C03"
 DRIVER = "drv_regtable"
 HARNESS = "h_regtable"
+GEN = [constants.gen]
+TIE = ['Ufw.Tie.RegTable']
 RULE = ("the small-scope table family of C02 plus write-only areas (flag and missing read callback): EVERY (address, length) window position "
         "incl. starts in holes, in gaps between registers, inside multi-word registers and at area edges, for block reads (caller buffer of "
         "exactly n atoms, pre-filled) and for range iteration with callback scripts {all 0, +1 at k, -1 at k}.  Non-trivial = length >= 1; "
